@@ -23,6 +23,10 @@ fn jstr(s: &str) -> String {
 
 fn main() {
     let a: Vec<String> = std::env::args().collect();
+    if a.len() >= 6 && a[1] == "detx" {
+        detx_main(&a);
+        return;
+    }
     if a.len() < 6 || (a[1] != "det" && a[1] != "live") {
         eprintln!("usage: vh det|live <family> <seed0> <count> <out-file> [tier]");
         std::process::exit(2);
@@ -162,6 +166,95 @@ fn live_main(a: &[String]) {
     println!(
         "{{\"family\":{},\"runs\":{},\"steps\":0,\"events\":{},\"wall_s\":{:.3},\"workers\":{},\"oracle_failures\":[{}],\"unresolved_sites\":[{}]}}",
         jstr(family), runs, events, t0.elapsed().as_secs_f64(), workers, fl.join(","), ur.join(",")
+    );
+    std::process::exit(if failures.is_empty() { 0 } else { 1 });
+}
+
+/// vh detx <family> <seed0> <count> <out-file> [tier] : SYSTEMATIC exploration. For each of `count` seeded scenarios
+/// (structure from the seed, as in `det`) every schedule with at most VH_PREEMPT (default 2) preemptions is executed
+/// on the real code (iterative context bounding: a switch away from an enabled actor, or firing a time-out while a
+/// normal step is enabled, costs one), up to VH_MAXRUNS (default 3000) runs per scenario. Same output as `det`;
+/// every run is a scenario in the trace file, `sched=` in its header replays it.
+fn detx_main(a: &[String]) {
+    let family = a[2].as_str();
+    let seed0: u64 = a[3].parse().unwrap();
+    let count: u64 = a[4].parse().unwrap();
+    let tier: u32 = a.get(6).and_then(|s| s.parse().ok()).unwrap_or(0);
+    let bound: usize = std::env::var("VH_PREEMPT").ok().and_then(|s| s.parse().ok()).unwrap_or(2);
+    let max_runs: usize = std::env::var("VH_MAXRUNS").ok().and_then(|s| s.parse().ok()).unwrap_or(3000);
+    let mut out = std::io::BufWriter::new(std::fs::File::create(&a[5]).unwrap());
+    rt::install();
+    std::panic::set_hook(Box::new(|_| {}));
+    let mut failures = vec![];
+    let (mut steps, mut events, mut runs, mut exhausted) = (0usize, 0usize, 0u64, 0u64);
+    let mut unresolved = std::collections::BTreeSet::new();
+    let t0 = std::time::Instant::now();
+    for seed in seed0..seed0 + count {
+        // work list of prefixes with their preemption count
+        let mut work: Vec<(Vec<(usize, bool)>, usize)> = vec![(vec![], 0)];
+        let mut done = 0usize;
+        while let Some((prefix, pre)) = work.pop() {
+            if done >= max_runs { break; }
+            let mut rng = Rng::new(seed);
+            let Some(b) = scn::build_det(family, &mut rng, tier) else {
+                eprintln!("unknown family {family}");
+                std::process::exit(2);
+            };
+            rt::set_filter(&b.filter);
+            let allow_timeouts = b.timeout_permille > 0;
+            let mut sched = Sched::Prefix(&prefix, 0);
+            let r = rt::run_det(&b.names, b.actors, &mut sched, 20_000);
+            done += 1;
+            runs += 1;
+            steps += r.steps;
+            // children: deviate at every decision at or after the end of the prefix
+            for (i, d) in r.decisions.iter().enumerate().skip(prefix.len()) {
+                let running_enabled = d.last.map(|l| d.enabled.contains(&l)).unwrap_or(false);
+                let base: Vec<(usize, bool)> = r.decisions[..i].iter().map(|x| x.chosen).collect();
+                for &alt in &d.enabled {
+                    if (alt, false) == d.chosen { continue; }
+                    let cost = if running_enabled && d.last != Some(alt) { 1 } else { 0 };
+                    if pre + cost <= bound {
+                        let mut p = base.clone();
+                        p.push((alt, false));
+                        work.push((p, pre + cost));
+                    }
+                }
+                if allow_timeouts {
+                    for &alt in &d.timeouts {
+                        if (alt, true) == d.chosen { continue; }
+                        let cost = if d.enabled.is_empty() { 0 } else { 1 };
+                        if pre + cost <= bound {
+                            let mut p = base.clone();
+                            p.push((alt, true));
+                            work.push((p, pre + cost));
+                        }
+                    }
+                }
+            }
+            let mut c = Canon::new();
+            let lines = c.lines(&r.log);
+            for u in c.unresolved_sites { unresolved.insert(u); }
+            events += lines.len();
+            let mut fails = (b.check)(&r);
+            if let Some(d) = &r.deadlock { fails.push(format!("deadlock: no enabled actor, states {d}")); }
+            if r.budget_exceeded { fails.push("step budget exceeded (livelock?)".into()); }
+            for p in &r.panics { fails.push(format!("panic: {p}")); }
+            let status = if fails.is_empty() { "ok" } else { "oracle-fail" };
+            let ps: Vec<String> = prefix.iter().map(|(t, to)| format!("{}{}", t, if *to { "!" } else { "" })).collect();
+            writeln!(out, "#scenario seed={} {} sched={}", seed, b.header, if ps.is_empty() { "-".to_string() } else { ps.join(".") }).unwrap();
+            for l in &lines { writeln!(out, "{l}").unwrap(); }
+            writeln!(out, "#end {status}").unwrap();
+            for f in fails { failures.push((seed, f)); }
+        }
+        if work.is_empty() { exhausted += 1; }
+    }
+    out.flush().unwrap();
+    let fl: Vec<String> = failures.iter().take(50).map(|(s, f)| format!("{{\"seed\":{},\"what\":{}}}", s, jstr(f))).collect();
+    let ur: Vec<String> = unresolved.iter().map(|s| jstr(s)).collect();
+    println!(
+        "{{\"family\":{},\"runs\":{},\"steps\":{},\"events\":{},\"wall_s\":{:.3},\"scenarios\":{},\"exhausted_within_bound\":{},\"preemption_bound\":{},\"oracle_failures\":[{}],\"unresolved_sites\":[{}]}}",
+        jstr(family), runs, steps, events, t0.elapsed().as_secs_f64(), count, exhausted, bound, fl.join(","), ur.join(",")
     );
     std::process::exit(if failures.is_empty() { 0 } else { 1 });
 }
